@@ -123,12 +123,19 @@ package dag
 //@   prop C06 C19
 //@   safety
 //@   requires transaction != nil && !isNilIface(headers)
+//@   loop 1 invariant forall k int :: 0 <= k && k < $i ==> typeOf(prevsAsSlice[k]) == string
 //@   ensures [header-present-and-a-list] isNilIface(result) ==> headers.Get(previousHeader).1 && typeOf(headers.Get(previousHeader).0) == []any
+//@   ensures [an-entry-of-another-json-type-is-refused] headers.Get(previousHeader).1 && typeOf(headers.Get(previousHeader).0) == []any
+//@        && len(headers.Get(previousHeader).0.([]any)) > 0 && typeOf(headers.Get(previousHeader).0.([]any)[0]) != string ==> !isNilIface(result)
 //@ func parsePAL
 //@   prop C06 C19
 //@   safety
 //@   requires transaction != nil && !isNilIface(headers)
 //@   ensures [absent-or-a-list] isNilIface(result) && headers.Get(palHeader).1 ==> typeOf(headers.Get(palHeader).0) == []any
+// a reachability clause: the function RETURNS for a list whose first entry is not a string (the cover of
+// this antecedent is exercisable on the pinned tree; a bare assertion on the entries makes it unreachable)
+//@   ensures [an-entry-of-another-json-type-is-answered] headers.Get(palHeader).1 && typeOf(headers.Get(palHeader).0) == []any
+//@        && len(headers.Get(palHeader).0.([]any)) > 0 && typeOf(headers.Get(palHeader).0.([]any)[0]) != string ==> true
 
 //@ func parseLamportClock
 //@   prop C06 C19
